@@ -18,20 +18,20 @@ import (
 
 // Header is the drawn configuration of one case.
 type Header struct {
-	Voters     int       `json:"voters"`
-	NonVoters  int       `json:"non_voters,omitempty"` // added by AddServer(…, false) in the prologue
-	ET         int       `json:"et_ms"`
-	HB         int       `json:"hb_ms"`
-	LD         int       `json:"ld_ms"`
-	TimerSeed  int64     `json:"timer_seed"`
-	Tape       []byte    `json:"tape"`
-	MaxDelayUs int       `json:"max_delay_us"`
-	Delays     [5]int64  `json:"fsm_delays_ns,omitempty"` // applyPre, applyPost, snapPre, snapPost, restore
-	SnapThresh int       `json:"snap_thresh,omitempty"`
-	Padding    int       `json:"padding,omitempty"`
-	DiskCheck  bool      `json:"disk_check,omitempty"`
-	DynamicMembers bool  `json:"dynamic_members,omitempty"`
-	Single     bool      `json:"single_bootstrap,omitempty"` // bootstrap one node, add the others through AddServer
+	Voters         int      `json:"voters"`
+	NonVoters      int      `json:"non_voters,omitempty"` // added by AddServer(…, false) in the prologue
+	ET             int      `json:"et_ms"`
+	HB             int      `json:"hb_ms"`
+	LD             int      `json:"ld_ms"`
+	TimerSeed      int64    `json:"timer_seed"`
+	Tape           []byte   `json:"tape"`
+	MaxDelayUs     int      `json:"max_delay_us"`
+	Delays         [5]int64 `json:"fsm_delays_ns,omitempty"` // applyPre, applyPost, snapPre, snapPost, restore
+	SnapThresh     int      `json:"snap_thresh,omitempty"`
+	Padding        int      `json:"padding,omitempty"`
+	DiskCheck      bool     `json:"disk_check,omitempty"`
+	DynamicMembers bool     `json:"dynamic_members,omitempty"`
+	Single         bool     `json:"single_bootstrap,omitempty"` // bootstrap one node, add the others through AddServer
 }
 
 // Instance is one incarnation of a node: one raft.Raft value with its state
@@ -43,10 +43,10 @@ type Instance struct {
 	fsm  *LedgerFSM
 	tr   *SimTransport
 
-	dead     atomic.Bool // crashed: a zombie whose outputs are all discarded
-	started  atomic.Bool
-	stopping atomic.Bool
-	stopped  atomic.Bool
+	dead      atomic.Bool // crashed: a zombie whose outputs are all discarded
+	started   atomic.Bool
+	stopping  atomic.Bool
+	stopped   atomic.Bool
 	stopCalls atomic.Int32
 
 	smu         sync.Mutex
@@ -139,8 +139,8 @@ type Cluster struct {
 	Labels map[string]int
 }
 
-func (c *Cluster) Net() *Network   { return c.net }
-func (c *Cluster) Rec() *Recorder  { return c.rec }
+func (c *Cluster) Net() *Network      { return c.net }
+func (c *Cluster) Rec() *Recorder     { return c.rec }
 func (c *Cluster) Now() time.Duration { return time.Since(c.start) }
 
 // AddViolation lets a property hook report a violation of its own.
